@@ -101,6 +101,8 @@ class Net:
         self.wire     = []       # wire log: (t, event, pipe label, info)
         self.join_delay = {}     # (sub owner name, addr) -> ms
         self.default_join_delay = 0
+        self.close_drops_inbound = False
+        self.down_at  = {}       # addr -> time the socket bound there went away (peers reconnect RECONNECT_IVL later at the earliest)
         self.fail_bind = {}      # addr -> exception to raise on bind (C08)
         self.log_wire = True
 
@@ -126,16 +128,48 @@ class Net:
         pub.out_pipes.append(pipe)
         sub.in_pipes.append(pipe)
 
-        delay = self.join_delay.get((sub.owner.name if sub.owner else None, addr), self.default_join_delay)
+        delay = max(self.join_delay.get((sub.owner.name if sub.owner else None, addr), self.default_join_delay), self.reconnect_wait(sub, addr))
 
         if delay <= 0:
             pipe.attached = True
         else:
             self.world.at(delay, lambda: setattr(pipe, 'attached', True), f'join {pipe.label}')
 
-    def proc_died(self, proc, drop_inflight=True):
+    def reconnect_wait(self, sock, addr):
+        """ms until a connecting socket can be attached to a socket newly bound at addr.  After an established connection broke,
+        libzmq retries RECONNECT_IVL + rand() % RECONNECT_IVL later (measured: 110-200 ms with the library's 100); the model takes
+        the earliest moment strictly after RECONNECT_IVL."""
+
+        if (down := self.down_at.get(addr)) is None or getattr(self.world, 'direct', False) or sock.connect_t.get(addr, 0) > down:
+            return 0        # (a socket that connected after the old peer had gone is in its start-up phase, not reconnecting)
+
+        return max(0, down + (sock.opts.get(RECONNECT_IVL) or 100) + 1 - self.world.now)
+
+    def attach_pushes(self, pull, addr):
+        for p in self.pp.get(addr, ()):
+            if not p.closed and not p.attached:
+                if (delay := self.reconnect_wait(p.src, addr)) <= 0:
+                    p.attached = True
+                else:
+                    def join(p=p):
+                        if self.bound.get(addr) is pull and not p.closed:
+                            p.attached = True
+
+                    self.world.at(delay, join, f'rejoin {p.label}')
+
+    def proc_died(self, proc, drop_inflight=True, drop_inbound=False):
         for s in list(proc.sockets):
+            if drop_inbound and s.type == PULL:      # requests that had already been handed to the victim's process die with it
+                for p in self.inbound_request_pipes(s):
+                    p.flight.clear()
+
             s._close(hard=True, drop_inflight=drop_inflight)
+
+    def inbound_request_pipes(self, sock):
+        return [p for addr in sock.bound_at if self.bound.get(addr) is sock for p in self.pp.get(addr, ()) if p.flight and p.attached]
+
+    def has_inbound_requests(self, proc):
+        return any(self.inbound_request_pipes(s) for s in proc.sockets if s.type == PULL and not s.closed)
 
     # ---- delivery --------------------------------------------------------------------------------------------------
 
@@ -144,7 +178,7 @@ class Net:
             return [p for p in sock.in_pipes if p.attached or p.flight]
 
         if sock.type == PULL:
-            return [p for addr in sock.bound_at if self.bound.get(addr) is sock for p in self.pp.get(addr, ()) if not p.closed or p.flight]
+            return [p for addr in sock.bound_at if self.bound.get(addr) is sock for p in self.pp.get(addr, ()) if p.attached and (not p.closed or p.flight)]
 
         return []
 
@@ -260,6 +294,7 @@ class Socket:
         self.closed    = False
         self.bound_at  = []
         self.connected = []
+        self.connect_t = {}
         self.out_pipes = []     # PUB: pipes to subs; PUSH: pipes to addresses
         self.in_pipes  = []     # SUB
         net.all_sockets.append(self)
@@ -317,11 +352,15 @@ class Socket:
                 if not sub.closed:
                     net.attach_sub(self, sub, addr)
 
+        elif self.type == PULL:
+            net.attach_pushes(self, addr)
+
     def connect(self, addr):
         self._check()
         net = self.net
 
         self.connected.append(addr)
+        self.connect_t[addr] = self.world.now
 
         if self.type == SUB:
             net.subs.setdefault(addr, []).append(self)
@@ -349,6 +388,14 @@ class Socket:
         for addr in self.bound_at:
             if net.bound.get(addr) is self:
                 del net.bound[addr]
+                net.down_at[addr] = self.world.now
+
+                if self.type == PULL:
+                    for p in net.pp.get(addr, ()):
+                        p.attached = False
+
+                        if not hard and (net.close_drops_inbound or (self.owner is not None and self.owner.user.get('close_drops_inbound'))):
+                            p.flight.clear()        # requests that had reached this process and were never read die with the socket
 
         if self.type == SUB:
             for addr in self.connected:
